@@ -53,6 +53,10 @@ Next ==
              \* request is handed to a handler (every stream packet is answered exactly once by the scripted handler)
              /\ (IF nwr # Len(invs) /\ ~IsProxy THEN PrintT(<< "PV", {"C07"}, sc, l, "stream" >>) ELSE TRUE)
              /\ invs' = Append(invs, e) /\ UNCHANGED << sc, cur, nwr, cnt >>
+        [] e.e = "late" /\ cur.n >= 0 ->
+             \* what a handler that kept the body it was given sees once the whole stream has been read: still that packet's body
+             /\ (IF e.i <= Len(invs) /\ e.b # invs[e.i].b /\ ~IsProxy THEN PrintT(<< "PV", {"C05"}, sc, l, "stream" >>) ELSE TRUE)
+             /\ UNCHANGED << sc, cur, invs, nwr, cnt >>
         [] e.e = "wr" /\ cur.n >= 0 -> nwr' = nwr + 1 /\ UNCHANGED << sc, cur, invs, cnt >>
         [] e.e = "send" /\ cur.n >= 0 ->
              /\ (IF nwr # Len(invs) /\ ~IsProxy THEN PrintT(<< "PV", {"C07"}, sc, l, "stream" >>) ELSE TRUE)    \* at rest: every delivered request has its reply
